@@ -20,9 +20,9 @@ import (
 
 func init() {
 	ev.Register(&ev.Check{
-		ID:    "C14",
-		Level: "exploration",
-		Rule: "accepted texts S (all rule-free JS-core renderings <= 3 nodes in canonical and compact layout, annotated/noted variants ending in every token class, type shortcuts, enum rule texts incl. comments, JSON documents, regex tokens) x separators {none, space, tab, LF, CRLF, space-LF-space, LF-LF} x trailing texts from a directive-like alphabet {x, GET /, TYPE @a, Body, 200, @a, :, ',', }, ], \"q\"} restricted to the two admitted shapes (blank/line break then foreign text; a foreign byte directly after a closing bracket or quote): Len must equal len(S); plus EVERY truncation of every plain-JSON S: a lexically incomplete prefix (reference PDA live and not accepting) must make Len fail. Non-trivial = distinct (role, S, separator, trailing text).",
+		ID:          "C14",
+		Level:       "exploration",
+		Rule:        "accepted texts S (all rule-free JS-core renderings <= 3 nodes in canonical and compact layout, annotated/noted variants ending in every token class, type shortcuts, enum rule texts incl. comments, JSON documents, regex tokens) x separators {none, space, tab, LF, CRLF, space-LF-space, LF-LF} x trailing texts from a directive-like alphabet {x, GET /, TYPE @a, Body, 200, @a, :, ',', }, ], \"q\"} restricted to the two admitted shapes (blank/line break then foreign text; a foreign byte directly after a closing bracket or quote): Len must equal len(S); plus EVERY truncation of every plain-JSON S: a lexically incomplete prefix (reference PDA live and not accepting) must make Len fail. Non-trivial = distinct (role, S, separator, trailing text).",
 		Run:         run,
 		Replay:      replay,
 		QuickBudget: 70 * time.Second,
